@@ -37,8 +37,8 @@ CallableTypes = (FunctionType, MethodType)
 
 # Mapping of coercable types.
 CoercableTypes = {
-    float: (ValidateTrait.coerce, float, int),
-    complex: (ValidateTrait.coerce, complex, float, int),
+    float: (ValidateTrait.coerce, float, None, int),
+    complex: (ValidateTrait.coerce, complex, None, float, int),
 }
 
 _WARNING_FORMAT_STR = ("'{handler}' trait handler has been deprecated. "
@@ -126,15 +126,16 @@ class TraitCoerceType(TraitHandler):
 
     def validate(self, object, name, value):
         fv = self.fast_validate
-        tv = type(value)
 
-        # If the value is already the desired type, then return it:
-        if tv is fv[1]:
+        # If the value is already of the desired type, then return it
+        # (like the compiled validator, subtypes are accepted as they are):
+        if isinstance(value, fv[1]):
             return value
 
-        # Else see if it is one of the coercable types:
+        # Else see if it is one of the coercable types (the entries after
+        # the 'None' separator):
         for typei in fv[2:]:
-            if tv is typei:
+            if typei is not None and isinstance(value, typei):
                 # Return the coerced value:
                 return fv[1](value)
 
